@@ -15,6 +15,9 @@ Statement forms (tuples):
   ("block", kind, [stmts])   kind = "try" | "defer" | "coro" | "dl:<ms>" (ev/with-deadline around the statements): the statements run inside ONE child fiber of the task that stays
                              suspended across their waits (every single wait is additionally wrapped in its own `try`)
   ("goself",)                (ev/go (fiber/root)): the running task schedules itself;  ("cancel", <own name>, msg) likewise
+  ("gather", [(name, [stmts]) ...])   (ev/gather body ...): one sibling task per body (the REAL macro of boot.janet); each body names its
+                             task and yields once (ev/sleep 0), so that every later resume of it is logged under its name
+  ("fail", msg)              (error msg) outside any try: the task ends with an error
 Every waiting statement is logged:  L <tick> <fiber> :<label> <result or (:err msg)>.
 """
 
@@ -120,7 +123,15 @@ class Scenario:
             i = ctr[0]
             ctr[0] += 1
             lab = "%s%d" % (fib.lower(), i)
-            if k in WAITS:
+            if k == "gather":
+                bodies = []
+                for gname, gst in st[1]:
+                    bodies.append('%s  (do (verif/name (fiber/root) "%s") (ev/sleep 0)\n%s)' % (
+                        ind, gname, "\n".join(self.emit_stmts(gst, gname, ind + "    "))))
+                out.append('%s(verif/log :%s (try (ev/gather\n%s) ([e] [:err e])))' % (ind, lab, "\n".join(bodies)))
+            elif k == "fail":
+                out.append('%s(error "%s")' % (ind, st[1]))
+            elif k in WAITS:
                 out.append('%s(verif/log :%s (try %s ([e] [:err e])))' % (ind, lab, emit_wait(st)))
             elif k == "close":
                 out.append("%s(ev/chan-close %s)" % (ind, st[1]))
@@ -172,7 +183,7 @@ class Scenario:
         pipe streams and process waits with the kernel's answers as input); not: calls that fail argument validation."""
         def ok(stmts):
             for st in stmts:
-                if st[0] in ("settle", "raw"):
+                if st[0] in ("settle", "raw", "gather", "fail"):
                     return False
                 if st[0] == "deadline" and not ok([st[2]]):
                     return False
@@ -343,6 +354,10 @@ def a_variants():
         }[a]
         if a in ("seltake", "selgive"):
             abandons.append("immediate")       # the select completes at once through the other clause: nothing may stay registered
+        if a in ("sleep", "take", "give", "seltake", "selgive", "read", "write", "pwait", "pwaitx"):
+            # F is one body of an (ev/gather ...): abandoned by the macro's sibling cancellation (another body fails) resp. by its
+            # `defer` when the parent task itself is cancelled while it waits for the bodies
+            abandons += ["gsib", "gpar"]
         for ab in abandons:
             for fi in fires:
                 out.append((a, ab, fi))
@@ -502,7 +517,11 @@ def build(sid, a, ab, fi, b, extra=None):
     M.append(("spawn", "Z", [("sleep", 14)]))
     if ab == "immediate":
         M.append(("give", "cX", "vx"))      # cX has capacity 1: the other clause is ready before F starts
-    M.append(("spawn", "F", F))
+    if ab in ("gsib", "gpar"):
+        E = [("sleep", 10), ("fail", "boom")] if ab == "gsib" else [("sleep", 200)]
+        M.append(("spawn", "P", [("gather", [("F", F), ("E", E)])]))
+    else:
+        M.append(("spawn", "F", F))
     if ab in ("immediate", "error"):
         # F never suspends in A: it is in B from tick 0 on
         a_res = "(:take,cX,:vx)" if ab == "immediate" else "ERR"
@@ -529,6 +548,11 @@ def build(sid, a, ab, fi, b, extra=None):
         elif ab == "expired":
             a_res = '(:err,"deadline_expired")'
             t_ab = 15
+        elif ab == "gsib":
+            a_res = '(:err,"sibling_canceled")'       # body E failed at tick 10: wait-for-fibers runs cancel-all
+        elif ab == "gpar":
+            M.append(("cancel", "P", "stop"))         # the parent is cancelled inside wait-for-fibers: its defer runs cancel-all
+            a_res = '(:err,"parent_canceled")'
     M.append(("sleep", 10))        # t = 20
     M.append(("dump", "prefire"))
     item_left = None               # (channel, item) that must still be available at the end
@@ -703,12 +727,14 @@ def matrix(dirts=DIRTS):
             for d in dirts:
                 if d and not a.startswith("bad:") and not any(k in (a, b) for k in ("take", "give", "seltake", "selgive", "dl", "dlx", "same")):
                     continue        # no channel in the scenario: dirt would change nothing
+                if d and ab in ("gsib", "gpar"):
+                    continue
                 sc = build("m%04d-%s-%s-%s-%s%s" % (n, a.replace(":", "_"), ab, fi, b, "-" + d if d else ""), a, ab, fi, b, {"dirt": d})
                 if sc is None:
                     continue
                 n += 1
                 out.append(sc)
-                if d:
+                if d or ab in ("gsib", "gpar"):
                     continue
                 # the same program with F's body inside child fibers; two levels / coro only where a stream is involved
                 for ns in NESTS:
